@@ -80,18 +80,35 @@ def laws(req):
             return None
         return type("X", (jt.AbstractDtype,), {"dtypes": s})
     pairs = req["pairs"]            # list of [i1, i2, j1, j2]: categories i1 (inner), i2 (outer); dim strings j1 (inner), j2 (outer)
-    for (i1, i2, j1, j2) in pairs:
+    def use_elsewhere(X):
+        """the inner annotation OBJECT is also the yield type of a generator function decorated in the old double-decorator style
+        (which marks that object transparent): annotations that merely extend it are separate annotations"""
+        import typing, warnings, typeguard
+        def gen(x) -> typing.Iterator[X]:
+            yield x
+        with warnings.catch_warnings():
+            warnings.simplefilter("ignore")
+            jt.jaxtyped(typeguard.typechecked(gen))
+
+    for pk, (i1, i2, j1, j2) in enumerate(pairs):
         D1, D2, s1, s2 = cats[i1], cats[i2], dimstrs[j1], dimstrs[j2]
         both_var = any(t in s1 for t in ("*", "...")) and any(t in s2 for t in ("*", "..."))
         I = inter(D1, D2)
         try:
-            lhs = D2[D1[A, s1], s2]; lerr = None
+            X = D1[A, s1]
+            if pk % 4 == 1:
+                use_elsewhere(X); stats["nest-inner-used-elsewhere-before"] += 1
+            lhs = D2[X, s2]; lerr = None
+            if pk % 4 == 3:
+                use_elsewhere(X); stats["nest-inner-used-elsewhere-after"] += 1
         except ValueError:
             lhs = None; lerr = "ValueError"
         except Exception as e:  # noqa
             lhs = None; lerr = type(e).__name__
         want_err = (I is None) or both_var
         desc = "%s[%s[ndarray, %r], %r]" % (D2.__name__, D1.__name__, s1, s2)
+        if pk % 4 in (1, 3):
+            desc += " (X = the inner annotation object is also the yield type of an old-style decorated generator function, decorated %s the nesting)" % ("before" if pk % 4 == 1 else "after")
         builds.append({"D1": D1.__name__, "D2": D2.__name__, "s1": s1, "s2": s2, "impl": canon(lhs) if lhs is not None else "ValueError" if lerr == "ValueError" else "Other:%s" % lerr})
         if lerr not in (None, "ValueError"):
             viol.append({"kind": "nest-other-exception", "what": "%s raises %s" % (desc, lerr)}); continue
